@@ -26,6 +26,14 @@ type caseT struct {
 	Prog *basmgen.Program `json:"program"`
 	In   [][]uint64       `json:"inputs"`
 	Opt  string           `json:"options"` // "nodyn" or "minword"
+	// directed sources written by hand (features the generator's AST does not have): the final
+	// value of every external output is given with the source
+	Raw      string   `json:"raw_source,omitempty"`
+	RawName  string   `json:"raw_name,omitempty"`
+	RawFinal []uint64 `json:"raw_final,omitempty"`
+	// RawLines: per processor, an instruction its disassembly must contain (for features the Go
+	// simulator cannot execute, e.g. call/ret)
+	RawLines []string `json:"raw_lines,omitempty"`
 }
 
 func opts(o string) basmrun.Options {
@@ -35,7 +43,58 @@ func opts(o string) basmrun.Options {
 	return basmrun.Options{DisableDynamicalMatching: true}
 }
 
+func verdictRaw(c caseT) (kind string, w map[string]any, produced int) {
+	w = map[string]any{"name": c.RawName, "source": c.Raw, "options": c.Opt, "expected_final": c.RawFinal}
+	res, err := basmrun.Assemble(c.Raw, opts(c.Opt))
+	if err != nil {
+		w["err"] = err.Error()
+		if strings.HasPrefix(err.Error(), "panic:") {
+			return "assembler-panics", w, 0
+		}
+		return "rejected", w, 0
+	}
+	if len(c.RawLines) > 0 {
+		var dis []string
+		for pi, dom := range res.BM.Processors {
+			d, err := res.BM.Domains[dom].Disassembler()
+			if err != nil {
+				w["err"] = err.Error()
+				return "disassembly-fails", w, 0
+			}
+			dis = append(dis, strings.Join(strings.Fields(strings.ReplaceAll(d, "\n", " ; ")), " "))
+			if pi < len(c.RawLines) && !strings.Contains(" ; "+dis[pi]+" ; ", " ; "+c.RawLines[pi]+" ; ") {
+				w["disassembly"] = dis
+				w["expected_line"] = fmt.Sprintf("processor %d: %s", pi, c.RawLines[pi])
+				return "program-differs-from-source", w, pi
+			}
+		}
+		return "", nil, len(dis) + 3
+	}
+	r, err := simdrv.Start(res.BM, simdrv.Env{})
+	if err != nil {
+		return "simulation-error", w, 0
+	}
+	defer r.Stop()
+	for t := 0; t < 2000; t++ {
+		if err := r.Tick(false); err != nil {
+			return "simulation-error", w, 0
+		}
+	}
+	var got []uint64
+	for k := range r.VM.Outputs_regs {
+		got = append(got, u64(r.VM.Outputs_regs[k]))
+	}
+	w["machine_final"] = got
+	if fmt.Sprint(got) != fmt.Sprint(c.RawFinal) {
+		return "final-values-differ", w, len(got)
+	}
+	return "", nil, len(got)
+}
+
 func verdictLocal(c caseT, want int) (kind string, w map[string]any, produced int) {
+	if c.Raw != "" {
+		return verdictRaw(c)
+	}
 	src := c.Prog.Text()
 	w = map[string]any{"case": c, "source": src, "options": c.Opt}
 	res, err := basmrun.Assemble(src, opts(c.Opt))
@@ -139,6 +198,50 @@ func verdictLocal(c caseT, want int) (kind string, w map[string]any, produced in
 	return "", nil, len(got)
 }
 
+// rawCases: hand-written sources with their expected final outputs.
+func rawCases() []caseT {
+	var cs []caseT
+	// one template fragment called from five sections with different parameters
+	{
+		var sb strings.Builder
+		sb.WriteString("%meta bmdef global registersize:8\n%fragment setk default_k:1\n\trset r1, {{ .Params.k }}\n\tinc r1\n%endfragment\n")
+		ks := []int{5, 9, 3, 6, 12}
+		var fin []string
+		for c, k := range ks {
+			fmt.Fprintf(&sb, "%%section t%d .romtext iomode:async k:%d\n\tentry _start\n_start:\n\tclr r0\n\tcall8s setk\n\tr2o r1, o0\n\tj _start\n%%endsection\n", c, k)
+			fin = append(fin, fmt.Sprintf("rset r1 %d", k))
+		}
+		for c := range ks {
+			fmt.Fprintf(&sb, "%%meta cpdef tcp%d romcode: t%d, execmode:ha\n%%meta ioatt to%d cp:tcp%d, index:0, type:output\n%%meta ioatt to%d cp:bm, index:%d, type:output\n", c, c, c, c, c, c)
+		}
+		cs = append(cs, caseT{Raw: sb.String(), RawName: "template-fragment-5-callers", RawLines: fin, Opt: "nodyn"})
+		// a caller without the parameter takes the fragment's default
+		src := "%meta bmdef global registersize:8\n%fragment setk default_k:7\n\trset r1, {{ .Params.k }}\n\tinc r1\n%endfragment\n" +
+			"%section a .romtext iomode:async\n\tentry _start\n_start:\n\tclr r0\n\tcall8s setk\n\tr2o r1, o0\n\tj _start\n%endsection\n" +
+			"%section b .romtext iomode:async k:2\n\tentry _start\n_start:\n\tclr r0\n\tcall8s setk\n\tr2o r1, o0\n\tj _start\n%endsection\n" +
+			"%meta cpdef ca romcode: a, execmode:ha\n%meta cpdef cb romcode: b, execmode:ha\n" +
+			"%meta ioatt oa cp:ca, index:0, type:output\n%meta ioatt oa cp:bm, index:0, type:output\n%meta ioatt ob cp:cb, index:0, type:output\n%meta ioatt ob cp:bm, index:1, type:output\n"
+		cs = append(cs, caseT{Raw: src, RawName: "template-fragment-default-parameter", RawLines: []string{"rset r1 7", "rset r1 2"}, Opt: "nodyn"})
+	}
+	// fan-in written output-first with differing indices (a.o0 -> c.i0, b.o0 -> c.i1)
+	{
+		src := "%meta bmdef global registersize:8\n" +
+			"%section sa .romtext iomode:async\n\tentry s\ns:\n\trset r0, 3\n\tr2o r0, o0\n\tj s\n%endsection\n" +
+			"%section sb .romtext iomode:async\n\tentry s\ns:\n\trset r0, 5\n\tr2o r0, o0\n\tj s\n%endsection\n" +
+			"%section sc .romtext iomode:async\n\tentry s\ns:\n\ti2r r0, i0\n\ti2r r1, i1\n\tadd r0, r1\n\tadd r0, r1\n\tr2o r0, o0\n\tj s\n%endsection\n" +
+			"%meta cpdef cpua romcode: sa\n%meta cpdef cpub romcode: sb\n%meta cpdef cpuc romcode: sc\n" +
+			"%meta ioatt la cp:cpua, index:0, type:output\n%meta ioatt la cp:cpuc, index:0, type:input\n" +
+			"%meta ioatt lb cp:cpub, index:0, type:output\n%meta ioatt lb cp:cpuc, index:1, type:input\n" +
+			"%meta ioatt lo cp:cpuc, index:0, type:output\n%meta ioatt lo cp:bm, index:0, type:output\n"
+		cs = append(cs, caseT{Raw: src, RawName: "fan-in-output-first-different-indices", RawFinal: []uint64{13}, Opt: "nodyn"})
+		// the same wiring written input-first
+		src2 := strings.Replace(src, "%meta ioatt la cp:cpua, index:0, type:output\n%meta ioatt la cp:cpuc, index:0, type:input\n", "%meta ioatt la cp:cpuc, index:0, type:input\n%meta ioatt la cp:cpua, index:0, type:output\n", 1)
+		src2 = strings.Replace(src2, "%meta ioatt lb cp:cpub, index:0, type:output\n%meta ioatt lb cp:cpuc, index:1, type:input\n", "%meta ioatt lb cp:cpuc, index:1, type:input\n%meta ioatt lb cp:cpub, index:0, type:output\n", 1)
+		cs = append(cs, caseT{Raw: src2, RawName: "fan-in-input-first-different-indices", RawFinal: []uint64{13}, Opt: "nodyn"})
+	}
+	return cs
+}
+
 func u64(v interface{}) uint64 {
 	switch x := v.(type) {
 	case uint8:
@@ -209,7 +312,11 @@ func verdict(c caseT, want int) (string, map[string]any, int) {
 	defer pool.Put(w)
 	var r reply
 	if err := w.Call(c, &r); err != nil {
-		return "simulation-crashed", map[string]any{"case": c, "source": c.Prog.Text(), "options": c.Opt, "err": err.Error()}, 0
+		src := c.Raw
+		if c.Prog != nil {
+			src = c.Prog.Text()
+		}
+		return "simulation-crashed", map[string]any{"case": c, "source": src, "options": c.Opt, "err": err.Error()}, 0
 	}
 	return r.Kind, r.W, r.Produced
 }
@@ -243,6 +350,18 @@ func main() {
 		defer pools[o].Close()
 	}
 	want := 10
+	for _, rc := range rawCases() {
+		run.Eval(1)
+		kind, w, _ := verdict(rc, want)
+		switch kind {
+		case "":
+			run.Nontrivial("raw|" + rc.RawName)
+		case "rejected":
+			run.Inconclusive("directed-source-rejected:" + rc.RawName)
+		default:
+			run.Violation(kind+":directed:"+rc.RawName, w)
+		}
+	}
 	one := func(c caseT) {
 		run.Eval(1)
 		kind, w, produced := verdict(c, want)
